@@ -194,7 +194,8 @@ def r133(repo, ctx):
                 st.add(e)
         return frozenset(st)
     at, exits = C.collect(g, frozenset(), tr)
-    states = [s for v in exits.values() for s in v]
+    # a path that leaves through `raise` (argument validation, a failed backend call) installs nothing: only completed calls count
+    states = [s for k_, v in exits.items() if k_ != 'raise' for s in v]
     ctx.analysed['paths'] += len(states)
     problems = set()
     for s in states:
